@@ -130,7 +130,7 @@ func Mutate(t *rapid.T, p *Profile, label string) []byte {
 	return p.Repair(doc)
 }
 
-var bracketLeaves = []string{"a", "b c", "x", "`c`", "\\]", "\\[", "<b>", "&amp;", "a\nb", "<http://a.b>", "![i](u)", "[^1]", "*", "_", "~", "]", "[", "(", ")", ""}
+var bracketLeaves = []string{"<http://a/\"o=\"1>", "<x&y@a.bc>", "<http://a/?a&b>", "&quot;", "\"", "a", "b c", "x", "`c`", "\\]", "\\[", "<b>", "&amp;", "a\nb", "<http://a.b>", "![i](u)", "[^1]", "*", "_", "~", "]", "[", "(", ")", ""}
 
 // Brackets draws nested link / image / emphasis / code / strikethrough
 // structures (depth <= 5): the shapes that exercise bracket bookkeeping.
@@ -190,10 +190,36 @@ func BracketDoc(t *rapid.T, p *Profile, label string) []byte {
 	return p.Repair(b)
 }
 
+// FootnoteDoc: 2..5 footnotes referenced in order and defined in a drawn
+// permutation (the footnote list is sorted after parsing), with a few extras.
+func FootnoteDoc(t *rapid.T, p *Profile, label string) []byte {
+	n := rapid.IntRange(2, 5).Draw(t, label+"n")
+	labels := []string{"x", "y", "z", "1", "w"}[:n]
+	var b []byte
+	for _, l := range labels {
+		b = append(b, rapid.SampledFrom([]string{"a", "*b*", "> c", "- d", "# e", "|f|\n|-|\n|g"}).Draw(t, label+"ctx")...)
+		b = append(b, "[^"+l+"] "...)
+		if rapid.IntRange(0, 3).Draw(t, label+"again") == 0 {
+			b = append(b, "[^"+labels[0]+"]"...)
+		}
+		b = append(b, rapid.SampledFrom([]string{" ", "\n", "\n\n"}).Draw(t, label+"sep")...)
+	}
+	b = append(b, "\n\n"...)
+	for _, l := range rapid.Permutation(labels).Draw(t, label+"perm") {
+		b = append(b, "[^"+l+"]: "+rapid.SampledFrom([]string{"note", "note\n\n    more", "n [^x]", "`c`"}).Draw(t, label+"body")+"\n"...)
+		if rapid.Bool().Draw(t, label+"blank") {
+			b = append(b, '\n')
+		}
+	}
+	return p.Repair(b)
+}
+
 // Doc draws a document from the union of the shared generators.
 // maxTok bounds the soup length.
 func Doc(t *rapid.T, p *Profile, maxTok int, label string) ([]byte, string) {
-	switch k := rapid.IntRange(0, 10).Draw(t, label+"kind"); {
+	switch k := rapid.IntRange(0, 11).Draw(t, label+"kind"); {
+	case k == 11:
+		return FootnoteDoc(t, p, label+"fn"), "footnotes"
 	case k <= 3:
 		return Soup(t, p, maxTok, label+"soup"), "soup"
 	case k <= 6:
